@@ -6,17 +6,19 @@
    Mirrored, in the code's order:
    * parseStreamServer: privateKeyFile & privateKey -> ValueError; load the key file (not a key ->
      ValueError); hiddenServiceDir & key -> ValueError; singleHop must be true/false/1/0 (any case);
-     version must be an int in {2,3}; THEN global_tor()/system_tor() first ask for the global Tor /
-     connect to the control port and only then call the constructor.
+     version must be an int in {2,3}; hiddenServiceDir & singleHop -> ValueError (fix d08dcab); version 3
+     & a key that is not ED25519-V3 -> ValueError (fix 64ae05b); THEN global_tor()/system_tor() first ask
+     for the global Tor / connect to the control port and only then call the constructor.
    * __init__: ephemeral defaults to "no hidden_service_dir"; stealth_auth= & auth= -> ValueError,
      else auth = AuthStealth; ephemeral & stealth -> ValueError; ephemeral & dir -> ValueError;
-     key & not ephemeral -> ValueError; single_hop & not ephemeral -> ValueError; version None -> 2;
+     key & not ephemeral -> ValueError; single_hop & not ephemeral -> ValueError; ephemeral & version 3 &
+     RSA1024 key -> ValueError (fix 64ae05b); version None -> 2;
      not ephemeral and no dir -> mkdtemp + addSystemEventTrigger.
    * listen: await config (a non-TorConfig -> ValueError); listenTCP(0, interface=127.0.0.1);
      create the service with ports ["<public> 127.0.0.1:<bound>"]; on ANY exception from creation
      stopListening the local port and re-raise; wrap in TorOnionListeningPort.
-     For an ephemeral service with version 3 and an RSA1024 key, _add_ephemeral_service raises
-     ValueError before sending anything (but after the bind).
+     (_add_ephemeral_service still has its own version 3 / key test; the constructor now refuses that
+     combination first, so it is unreachable through an endpoint and not modelled.)
    * a lost control connection fails the command in flight; it does not touch `uploaded`. *)
 From Coq Require Import List Bool Arith NArith.
 From TxVerif Require Import Lib.ListSet Spec.C15 Spec.C17 Model.DescUpload.
@@ -36,6 +38,8 @@ Definition ctor_model (a : ctor_args) : option req :=
   if eph && a_hsdir a then None else
   if has_key (a_key a) && negb eph then None else
   if tri_true (a_single a) && negb eph then None else
+  if eph && (match a_ver a with V3 => true | _ => false end) && (match a_key a with KRsa => true | _ => false end)
+  then None else                                              (* fix 64ae05b *)
   Some {| q_eph := eph; q_auth := auth; q_key := a_key a; q_ver := a_ver a; q_single := tri_true (a_single a);
           q_hsdir := a_hsdir a |}.
 
@@ -53,9 +57,14 @@ Definition parse_model (s : str_args) : option ctor_args :=
       match s_ver s with
       | SVx => None           (* int() fails *)
       | SV4 => None           (* not in (None, 2, 3) *)
-      | v => Some {| a_eph := TNone; a_hsdir := s_hsd s; a_auth := ANone; a_stealth_kw := false; a_key := k;
-                     a_ver := match v with SV2 => V2 | SV3 => V3 | _ => VNone end;
-                     a_single := match h with SHtrue | SH1 | SHTrue => TTrue | _ => TFalse end |}
+      | v =>
+        let hop := match h with SHtrue | SH1 | SHTrue => true | _ => false end in
+        if s_hsd s && hop then None else                                                   (* fix d08dcab *)
+        if (match v with SV3 => true | _ => false end) && (match k with KRsa => true | _ => false end)
+        then None else                                                                     (* fix 64ae05b *)
+        Some {| a_eph := TNone; a_hsdir := s_hsd s; a_auth := ANone; a_stealth_kw := false; a_key := k;
+                a_ver := match v with SV2 => V2 | SV3 => V3 | _ => VNone end;
+                a_single := if hop then TTrue else TFalse |}
       end
     end
   end.
@@ -86,17 +95,11 @@ Inductive phase :=
 
 Record lst := { p_ph : phase; p_open : bool; p_port : bool (* the user holds an un-stopped port object *); p_oos : bool }.
 
-Definition late_invalid (q : req) : bool :=
-  q_eph q && (match q_ver q with V3 => true | _ => false end) && (match q_key q with KRsa => true | _ => false end).
-
 (* the configuration is there: bind, then create *)
 Definition config_ready (c : cfg) (q : req) : lst * list lobs :=
   if negb (g_bind_ok c) then
     ({| p_ph := POver false; p_open := false; p_port := false; p_oos := false |},
      [OListen true true false; OResult (LFail FBind)])
-  else if late_invalid q then
-    ({| p_ph := POver false; p_open := false; p_port := false; p_oos := false |},
-     [OListen true true true; OStopL true; OResult (LFail FValue)])
   else
     ({| p_ph := PCreate m0; p_open := true; p_port := false; p_oos := false |},
      [OListen true true true; OCmd (q_eph q) [(g_pub c, g_bound c, true)]]).
